@@ -40,6 +40,12 @@ CHECKS = {
  "C17": ("translation_validation", "translation-validation differential: marshal/unmarshal/re-marshal byte equality and side-by-side execution of original and reloaded code for every generated program",
          "For every generated program the marshalled bytes are deterministic (also across independent compilations), unmarshalling succeeds, re-marshalling reproduces the bytes, and original and reloaded code behave identically (result, error text, output, globals) on fresh VMs; the reloaded run is also compared with the reference interpreter.",
          "Programs come from C01's generator; equality is exact text equality of renderings.", "DESIGN.md §5 C17"),
+ "C13": ("exploration", "effect monitor (outside-tree snapshot), read monitor and strace syscall monitor for localfs; recording filesystems and a reference mount resolver for VirtualOS; exhaustive path enumeration over the segment alphabet",
+         "All path strings over the stated segment alphabet (<=4 segments quick, <=6 thorough; exhaustive within that bound) plus random Unicode paths are pushed through every filesystem operation of localfs (in a chroot sandbox) and of VirtualOS mount layouts; nothing outside the base may change or be read, and the observed (mount, relative path) must equal a 10-line reference resolver.",
+         "Following pre-existing symlinks that point outside the base is out of scope (the statement is about path strings); strace sampling covers a subset of the localfs operations.", "DESIGN.md §5 C13"),
+ "C20": ("exploration", "differential monitor over layout variants (AST rendering and bytecode equality) and invariant monitor over reported error positions for token-level mutations",
+         "Generated programs are re-rendered with spaces, block comments, line comments, blank lines, CRLF and accepted line breaks at every token gap (many-gap and single-gap variants); parse tree rendering and compiled bytes must not change. Token-level mutations must yield errors whose line/column exist and whose quoted line is verbatim, and whose rendering never panics or hangs.",
+         "Where line breaks are accepted is taken from the parser (after , ( [ { binary operators | and .); compile errors without a position are counted, not flagged.", "DESIGN.md §5 C20"),
 }
 
 NOT_YET = {}
